@@ -15,17 +15,31 @@ impl StringBuf {
     }
 
     pub fn push_char(self, c: char) {
+        #[cfg(roto_verif)]
+        crate::verif::sched::point("buf_acquire", self.vid(), 0);
         self.0.lock().unwrap().push(c)
     }
 
     pub fn push_string(self, s: RotoString) {
+        #[cfg(roto_verif)]
+        crate::verif::sched::point("buf_acquire", self.vid(), 0);
         self.0.lock().unwrap().push_str(&s);
     }
 
     #[expect(clippy::wrong_self_convention)]
     pub fn as_string(self) -> RotoString {
+        #[cfg(roto_verif)]
+        crate::verif::sched::point("buf_acquire", self.vid(), 0);
         let s = self.0.lock().unwrap();
         (&**s).into()
+    }
+}
+
+#[cfg(roto_verif)]
+impl StringBuf {
+    /// Identity of the shared buffer (for the schedule points)
+    pub fn vid(&self) -> usize {
+        Arc::as_ptr(&self.0) as usize
     }
 }
 
@@ -44,7 +58,11 @@ impl PartialEq for StringBuf {
         } else {
             (&other.0, &self.0)
         };
+        #[cfg(roto_verif)]
+        crate::verif::sched::point("buf_acquire", Arc::as_ptr(first) as usize, 0);
         let first = first.lock().unwrap();
+        #[cfg(roto_verif)]
+        crate::verif::sched::point("buf_acquire", Arc::as_ptr(second) as usize, 0);
         let second = second.lock().unwrap();
         *first == *second
     }
